@@ -283,7 +283,7 @@ class CoreTask:
                 obls.append(core.Obligation(sname, "F", s.pc, z3.And(facts) if facts else z3.BoolVal(True),
                                             note="iter_errors == concat over the schema's members of fin_k(keyword_k(value, instance, schema)) (C05, C06)"))
             except seqmatch.Mismatch as e:
-                res["obligations"].append({"name": sname, "kind": "F", "status": "failed", "solver": "seqmatch", "time_s": 0.0,
+                res["obligations"].append({"name": sname, "kind": "F", "status": ("failed" if getattr(e, "definite", True) else "unknown"), "solver": "seqmatch", "time_s": 0.0,
                                            "note": "dispatch structure differs from the expected one: %s" % e, "reason": str(e)})
             # X: the scope stack is restored on every normal exit
             depth = z3.simplify(s.ghost["depth"])
@@ -372,7 +372,7 @@ class CoreTask:
                         all_obls.append(core.Obligation(sname, "F", s.pc, z3.And(facts) if facts else z3.BoolVal(True),
                                                         note="descend yields iter_errors' errors with path/schema_path prepended exactly when given (C06)"))
                     except seqmatch.Mismatch as e:
-                        res["obligations"].append({"name": sname, "kind": "F", "status": "failed", "solver": "seqmatch", "time_s": 0.0,
+                        res["obligations"].append({"name": sname, "kind": "F", "status": ("failed" if getattr(e, "definite", True) else "unknown"), "solver": "seqmatch", "time_s": 0.0,
                                                    "note": "descend structure: %s" % e, "reason": str(e)})
                 ctx_last = ctx
         self.finish(res, ctx_last, all_obls)
